@@ -38,6 +38,7 @@ class Check(BaseCheck):
 
     def translate(self):
         extract.gen_fem()
+        extract.gen_misc()
         astx.gen_eigs()
 
     def problems(self, seed, n):
